@@ -81,6 +81,10 @@ class Potential_Form_Registry(object):
         raise Potential_Form_Registry_Exception("Two potential forms have the same label in [Potential-Form] section: '{0}'".format(d.signature.label))
       if d.signature.label in self._potential_forms:
         raise Potential_Form_Registry_Exception("A [Potential-Form] entry and a [Table-Form] section have the same label: '{0}'".format(d.signature.label))
+      # formulas resolve function names case-insensitively: labels differing only in case would be one function there
+      clash = self._case_clash(d.signature.label, list(potential_forms) + list(self._potential_forms))
+      if clash:
+        raise Potential_Form_Registry_Exception("Potential form labels must differ by more than case: '{0}' and '{1}'".format(clash, d.signature.label))
       func = _Cexptrk_Potential_Function(d)
       pf = Potential_Form(func)
       potential_forms[d.signature.label] = pf
@@ -99,11 +103,21 @@ class Potential_Form_Registry(object):
     for d in definitions:
       if d.name in self._potential_forms or d.name in reserved:
         raise Potential_Form_Registry_Exception("[Table-Form:{0}] has the same label as an existing potential form: '{0}'".format(d.name))
+      clash = self._case_clash(d.name, list(table_forms) + list(self._potential_forms) + list(reserved))
+      if clash:
+        raise Potential_Form_Registry_Exception("Potential form labels must differ by more than case: '{0}' and [Table-Form:{1}]".format(clash, d.name))
 
       pf = builder.create_potential_form(d)
       table_forms[d.name] = pf
     return table_forms
 
+
+  def _case_clash(self, label, existing):
+    """Return the label in `existing` that equals `label` when case is ignored (or None)."""
+    for other in existing:
+      if other != label and other.lower() == label.lower():
+        return other
+    return None
 
   def _register_with_each_other(self):
     # So that each function can rely on other custom functions, add each function to every other
